@@ -10,7 +10,7 @@ import numpy as np
 KINDS = ['circle', 'circ_annulus', 'ellipse', 'ell_annulus', 'rect', 'rect_annulus']
 METHODS = ['exact', 'center', 'subpixel']
 LOCS = ['inside', 'left', 'right', 'bottom', 'top', 'corner_bl', 'corner_br', 'corner_tl', 'corner_tr',
-        'graze', 'outside', 'far', 'integer', 'half']
+        'graze', 'outside', 'far', 'integer', 'half', 'tangent']
 
 
 # ----------------------------------------------------------------------
@@ -151,6 +151,13 @@ def gen_position(rng, loc, shape, ext):
             y = -0.5 - ext - gap
         if side in (3, 5, 7):
             y = ny - 0.5 + ext + gap
+        return x, y
+    if loc == 'tangent':
+        # shape extent (exact for circles and theta=0 ellipses) tangent to a pixel edge from the inside
+        x = float(rng.integers(0, max(1, nx))) - 0.5 + ext
+        y = float(rng.integers(0, max(1, ny))) - 0.5 + (ext if rng.random() < 0.3 else float(rng.uniform(0.2, 0.8)))
+        if rng.random() < 0.5:
+            x, y = y, x
         return x, y
     if loc == 'integer':
         return float(rng.integers(-2, nx + 2)), float(rng.integers(-2, ny + 2))
